@@ -102,10 +102,10 @@ fn c04_port_r1_absent_then_present() {
 	kani::cover!(true, "reached");
 }
 
-// @verif property=C04,C12 tier=thorough mem=24 timeout=5400
+// @verif property=C04,C12:thorough tier=quick mem=16 timeout=3000
 // @encodes peppi::io::slippi::de::parse_event (Frame Start, Frame Pre, Frame Post, Frame End arms), ParseState::frame_close null padding, mutable::Data::push_null
-// @symbolic 2700 frame ids, all payload bytes of 7 events
-// @bound version 3.16.0, one port (not Ice Climbers), two frame occurrences: the character is present in the first and absent from the second (ids arbitrary: rollbacks included)
+// @symbolic 2600 all payload bytes of 7 events (frame ids concrete: symbolic ids make every column length symbolic and the null-padding loops do not finish, > 45 min; arbitrary ids incl. rollbacks are decided on the port-free skeleton, gen_c04)
+// @bound version 3.16.0, one port (not Ice Climbers), two frame occurrences: the character is present in the first and absent from the second (consecutive ids -123, -122; the rollback variant is a separate harness)
 // @assume state built by ParseState::verif_from_parts; the port's column set is a typed stack object
 // @stub alloc::fmt::format = returns an empty String
 // @stub std::hash::RandomState::new = fixed keys
@@ -115,13 +115,16 @@ fn c04_port_r1_absent_then_present() {
 #[kani::stub(alloc::fmt::format, format_stub)]
 #[kani::stub(std::hash::RandomState::new, random_state_stub)]
 fn c04_port_r3_present_then_absent() {
+	c04_port_r3_present_then_absent_case(-123, -122);
+	kani::cover!(true, "reached");
+}
+
+fn c04_port_r3_present_then_absent_case(a: i32, b: i32) {
 	let v = Version(3, 16, 0);
 	let mut store = new_port(v, Port::P3, false);
 	let mut state = one_port_state(v, &mut store, Port::P3);
 	const PRE: usize = 1 + 6 + 58;
 	const POST: usize = 1 + 6 + 78;
-	let a: i32 = kani::any();
-	let b: i32 = kani::any();
 	let mut s_a: [u8; 13] = kani::any();
 	s_a[0] = 0x3A;
 	put_id(&mut s_a, a);
@@ -162,8 +165,6 @@ fn c04_port_r3_present_then_absent() {
 		(Some(s), Some(e)) => assert!(s.len() == 2 && e.len() == 2),
 		_ => assert!(false),
 	}
-	kani::cover!(a == b, "rollback: same id twice");
-	kani::cover!(a.checked_add(1) == Some(b), "consecutive ids");
 }
 
 fn port_event(code: u8, ics: bool, open_frame: bool, port: u8, follower: bool) {
@@ -328,10 +329,10 @@ fn c06_nopanic_pre_no_frame() {
 	kani::cover!(true, "reached");
 }
 
-// @verif property=C04,C01 tier=thorough mem=24 timeout=5400
+// @verif property=C04,C01:thorough tier=quick mem=16 timeout=3000
 // @encodes peppi::io::slippi::de::parse_event + ParseState::frame_close on an Ice Climbers port: null padding of leader AND follower when both are absent from a frame
-// @symbolic 2900 frame ids, all payload bytes of 10 events
-// @bound version 3.16.0, one port holding Ice Climbers, two frame occurrences: both climbers present in the first, both absent from the second
+// @symbolic 2800 all payload bytes of 10 events (frame ids concrete, see c04_port_r3_present_then_absent)
+// @bound version 3.16.0, one port holding Ice Climbers, two frame occurrences (ids -123, -122): both climbers present in the first, both absent from the second
 // @assume state built by ParseState::verif_from_parts; the port's column set is a typed stack object
 // @stub alloc::fmt::format = returns an empty String
 // @stub std::hash::RandomState::new = fixed keys
@@ -341,13 +342,16 @@ fn c06_nopanic_pre_no_frame() {
 #[kani::stub(alloc::fmt::format, format_stub)]
 #[kani::stub(std::hash::RandomState::new, random_state_stub)]
 fn c04_port_r3_ics_both_absent() {
+	c04_port_r3_ics_both_absent_case(-123, -122);
+	kani::cover!(true, "reached");
+}
+
+fn c04_port_r3_ics_both_absent_case(a: i32, b: i32) {
 	let v = Version(3, 16, 0);
 	let mut store = new_port(v, Port::P1, true);
 	let mut state = one_port_state(v, &mut store, Port::P1);
 	const PRE: usize = 1 + 6 + 58;
 	const POST: usize = 1 + 6 + 78;
-	let a: i32 = kani::any();
-	let b: i32 = kani::any();
 	let mut s_a: [u8; 13] = kani::any();
 	s_a[0] = 0x3A;
 	put_id(&mut s_a, a);
@@ -394,13 +398,12 @@ fn c04_port_r3_ics_both_absent() {
 		None => assert!(false),
 	}
 	assert!(p.leader.pre.random_seed.values()[0] == u32::from_be_bytes([pre_l[7], pre_l[8], pre_l[9], pre_l[10]]));
-	kani::cover!(a == b, "rollback: same id twice");
 }
 
 // @verif property=C04,C01 tier=thorough mem=16 timeout=5400
 // @encodes peppi::io::slippi::de::parse_event (Frame Start / Frame End arms) + ParseState::frame_close on an Ice Climbers port that has no character events at all: null padding of leader AND follower, one entry per frame row
-// @symbolic 300 two frame ids, payload bytes of 4 events
-// @bound version 3.16.0, one port holding Ice Climbers, two frame occurrences (ids arbitrary: rollback included), neither climber has events in either
+// @symbolic 230 payload bytes of 4 events (frame ids concrete)
+// @bound version 3.16.0, one port holding Ice Climbers, two frame occurrences (consecutive ids -123, -122; the rollback variant is a separate harness), neither climber has events in either
 // @assume state built by ParseState::verif_from_parts; the port's column set is a typed stack object
 // @stub alloc::fmt::format = returns an empty String
 // @stub std::hash::RandomState::new = fixed keys
@@ -410,11 +413,14 @@ fn c04_port_r3_ics_both_absent() {
 #[kani::stub(alloc::fmt::format, format_stub)]
 #[kani::stub(std::hash::RandomState::new, random_state_stub)]
 fn c04_port_ics_never_present() {
+	c04_port_ics_never_present_case(-123, -122);
+	kani::cover!(true, "reached");
+}
+
+fn c04_port_ics_never_present_case(a: i32, b: i32) {
 	let v = Version(3, 16, 0);
 	let mut store = new_port(v, Port::P1, true);
 	let mut state = one_port_state(v, &mut store, Port::P1);
-	let a: i32 = kani::any();
-	let b: i32 = kani::any();
 	let mut s_a: [u8; 13] = kani::any();
 	s_a[0] = 0x3A;
 	put_id(&mut s_a, a);
@@ -459,10 +465,102 @@ fn c04_port_ics_never_present() {
 		}
 		None => assert!(false),
 	}
-	kani::cover!(a == b, "rollback: same id twice");
 }
 
-// @verif property=C04,C01:thorough tier=quick mem=16 timeout=3000
+// @verif property=C04 tier=quick mem=16 timeout=3000
+// @encodes peppi::io::slippi::de::parse_event (Frame Start / Frame End arms) + ParseState::frame_close at version 3.0.0: after the Frame End of a frame in which the port's character had no events, every column of that character has its (null) row - nothing has to follow the Frame End
+// @symbolic 100 payload bytes of the two events
+// @bound version 3.0.0 (Frame Start/End framing, fewest columns), one port (not Ice Climbers), ONE frame (id -123) without character events; two occurrences: c04_port_absent_in_last_frame_v3_0 (thorough)
+// @assume state built by ParseState::verif_from_parts; the port's column set is a typed stack object
+// @stub alloc::fmt::format = returns an empty String
+// @stub std::hash::RandomState::new = fixed keys
+// @cbmc --max-field-sensitivity-array-size 512
+#[kani::proof]
+#[kani::unwind(8)]
+#[kani::stub(alloc::fmt::format, format_stub)]
+#[kani::stub(std::hash::RandomState::new, random_state_stub)]
+fn c04_port_absent_single_frame_v3_0() {
+	let v = Version(3, 0, 0);
+	let mut store = new_port(v, Port::P3, false);
+	let mut state = one_port_state(v, &mut store, Port::P3);
+	let a = -123i32;
+	let mut s_a: [u8; 9] = kani::any();
+	s_a[0] = 0x3A;
+	put_id(&mut s_a, a);
+	step(&mut state, &s_a, 0x3A);
+	let mut e_a: [u8; 5] = kani::any();
+	e_a[0] = 0x3C;
+	put_id(&mut e_a, a);
+	step(&mut state, &e_a, 0x3C);
+	let f = state.frames();
+	let p = &f.ports[0];
+	assert!(f.id.len() == 1 && f.id.values()[0] == a);
+	assert!(p.leader.pre.len() == 1 && p.leader.post.len() == 1);
+	assert!(!bit(&p.leader.validity, 0, 1));
+	match (f.start.as_ref(), f.end.as_ref()) {
+		(Some(s), Some(e)) => assert!(s.len() == 1 && e.len() == 1),
+		_ => assert!(false),
+	}
+	kani::cover!(true, "reached");
+}
+
+// @verif property=C04,C12 tier=thorough mem=16 timeout=5400
+// @encodes peppi::io::slippi::de::parse_event (Frame Start / Frame End arms) + ParseState::frame_close at version 3.0.0: a character without events in the LAST frame of the stream has its null row as soon as that frame's Frame End has been parsed
+// @symbolic 130 payload bytes of 4 events (frame ids concrete)
+// @bound version 3.0.0 (Frame Start/End framing, fewest columns), one port (not Ice Climbers), two frame occurrences without character events; the state is inspected after each Frame End, nothing follows the last one
+// @assume state built by ParseState::verif_from_parts; the port's column set is a typed stack object
+// @stub alloc::fmt::format = returns an empty String
+// @stub std::hash::RandomState::new = fixed keys
+// @cbmc --max-field-sensitivity-array-size 512
+#[kani::proof]
+#[kani::unwind(8)]
+#[kani::stub(alloc::fmt::format, format_stub)]
+#[kani::stub(std::hash::RandomState::new, random_state_stub)]
+fn c04_port_absent_in_last_frame_v3_0() {
+	c04_port_absent_in_last_frame_v3_0_case(-123, -122);
+	kani::cover!(true, "reached");
+}
+
+fn c04_port_absent_in_last_frame_v3_0_case(a: i32, b: i32) {
+	let v = Version(3, 0, 0);
+	let mut store = new_port(v, Port::P3, false);
+	let mut state = one_port_state(v, &mut store, Port::P3);
+	let mut s_a: [u8; 9] = kani::any();
+	s_a[0] = 0x3A;
+	put_id(&mut s_a, a);
+	step(&mut state, &s_a, 0x3A);
+	let mut e_a: [u8; 5] = kani::any();
+	e_a[0] = 0x3C;
+	put_id(&mut e_a, a);
+	step(&mut state, &e_a, 0x3C);
+	{
+		let f = state.frames();
+		let p = &f.ports[0];
+		assert!(f.id.len() == 1);
+		assert!(p.leader.pre.len() == 1 && p.leader.post.len() == 1);
+		assert!(!bit(&p.leader.validity, 0, 1));
+	}
+	let mut s_b: [u8; 9] = kani::any();
+	s_b[0] = 0x3A;
+	put_id(&mut s_b, b);
+	step(&mut state, &s_b, 0x3A);
+	let mut e_b: [u8; 5] = kani::any();
+	e_b[0] = 0x3C;
+	put_id(&mut e_b, b);
+	step(&mut state, &e_b, 0x3C);
+	let f = state.frames();
+	assert!(f.id.len() == 2 && f.id.values()[0] == a && f.id.values()[1] == b);
+	let p = &f.ports[0];
+	assert!(p.follower.is_none());
+	assert!(p.leader.pre.len() == 2 && p.leader.post.len() == 2);
+	assert!(!bit(&p.leader.validity, 0, 2) && !bit(&p.leader.validity, 1, 2));
+	match (f.start.as_ref(), f.end.as_ref()) {
+		(Some(s), Some(e)) => assert!(s.len() == 2 && e.len() == 2),
+		_ => assert!(false),
+	}
+}
+
+// @verif property=C04,C01 tier=thorough mem=16 timeout=5400
 // @encodes peppi::io::slippi::de::parse_event (Frame Pre / Frame Post, old framing) + ParseState::frame_close with two occupied ports, one of them an Ice Climbers port neither of whose climbers has any event: null padding of leader AND follower
 // @symbolic 670 Pre/Post payload bytes of 2 events
 // @bound version 0.1.0 (fewest columns), ports P1 (Ice Climbers, never present) and P2 (present), one frame
@@ -666,4 +764,72 @@ fn c06_event_routing_total() {
 	kani::cover!(r.is_ok() && r2.is_ok(), "well addressed");
 	forget(r);
 	forget(r2);
+}
+
+// @verif property=C04,C12 tier=thorough mem=24 timeout=5400
+// @encodes peppi::io::slippi::de::parse_event (Frame Start, Frame Pre, Frame Post, Frame End arms), ParseState::frame_close null padding, mutable::Data::push_null
+// @symbolic 2600 all payload bytes of 7 events (frame ids concrete: symbolic ids make every column length symbolic and the null-padding loops do not finish, > 45 min; arbitrary ids incl. rollbacks are decided on the port-free skeleton, gen_c04)
+// @bound rollback variant (both occurrences carry frame id -100); version 3.16.0, one port (not Ice Climbers), two frame occurrences: the character is present in the first and absent from the second
+// @assume state built by ParseState::verif_from_parts; the port's column set is a typed stack object
+// @stub alloc::fmt::format = returns an empty String
+// @stub std::hash::RandomState::new = fixed keys
+// @cbmc --max-field-sensitivity-array-size 512
+#[kani::proof]
+#[kani::unwind(8)]
+#[kani::stub(alloc::fmt::format, format_stub)]
+#[kani::stub(std::hash::RandomState::new, random_state_stub)]
+fn c04_port_r3_present_then_absent_rollback() {
+	c04_port_r3_present_then_absent_case(-100, -100);
+	kani::cover!(true, "reached");
+}
+
+// @verif property=C04,C01 tier=thorough mem=24 timeout=5400
+// @encodes peppi::io::slippi::de::parse_event + ParseState::frame_close on an Ice Climbers port: null padding of leader AND follower when both are absent from a frame
+// @symbolic 2800 all payload bytes of 10 events (frame ids concrete, see c04_port_r3_present_then_absent)
+// @bound rollback variant (both occurrences carry frame id -100); version 3.16.0, one port holding Ice Climbers, two frame occurrences: both climbers present in the first, both absent from the second
+// @assume state built by ParseState::verif_from_parts; the port's column set is a typed stack object
+// @stub alloc::fmt::format = returns an empty String
+// @stub std::hash::RandomState::new = fixed keys
+// @cbmc --max-field-sensitivity-array-size 512
+#[kani::proof]
+#[kani::unwind(8)]
+#[kani::stub(alloc::fmt::format, format_stub)]
+#[kani::stub(std::hash::RandomState::new, random_state_stub)]
+fn c04_port_r3_ics_both_absent_rollback() {
+	c04_port_r3_ics_both_absent_case(-100, -100);
+	kani::cover!(true, "reached");
+}
+
+// @verif property=C04,C01 tier=thorough mem=16 timeout=5400
+// @encodes peppi::io::slippi::de::parse_event (Frame Start / Frame End arms) + ParseState::frame_close on an Ice Climbers port that has no character events at all: null padding of leader AND follower, one entry per frame row
+// @symbolic 230 payload bytes of 4 events (frame ids concrete)
+// @bound rollback variant (both occurrences carry frame id -100); version 3.16.0, one port holding Ice Climbers, two frame occurrences, neither climber has events in either
+// @assume state built by ParseState::verif_from_parts; the port's column set is a typed stack object
+// @stub alloc::fmt::format = returns an empty String
+// @stub std::hash::RandomState::new = fixed keys
+// @cbmc --max-field-sensitivity-array-size 512
+#[kani::proof]
+#[kani::unwind(8)]
+#[kani::stub(alloc::fmt::format, format_stub)]
+#[kani::stub(std::hash::RandomState::new, random_state_stub)]
+fn c04_port_ics_never_present_rollback() {
+	c04_port_ics_never_present_case(-100, -100);
+	kani::cover!(true, "reached");
+}
+
+// @verif property=C04,C12 tier=thorough mem=16 timeout=5400
+// @encodes peppi::io::slippi::de::parse_event (Frame Start / Frame End arms) + ParseState::frame_close at version 3.0.0: a character without events in the LAST frame of the stream has its null row as soon as that frame's Frame End has been parsed
+// @symbolic 130 payload bytes of 4 events (frame ids concrete)
+// @bound rollback variant (both occurrences carry frame id -100); version 3.0.0 (Frame Start/End framing, fewest columns), one port (not Ice Climbers), two frame occurrences without character events; the state is inspected after each Frame End, nothing follows the last one
+// @assume state built by ParseState::verif_from_parts; the port's column set is a typed stack object
+// @stub alloc::fmt::format = returns an empty String
+// @stub std::hash::RandomState::new = fixed keys
+// @cbmc --max-field-sensitivity-array-size 512
+#[kani::proof]
+#[kani::unwind(8)]
+#[kani::stub(alloc::fmt::format, format_stub)]
+#[kani::stub(std::hash::RandomState::new, random_state_stub)]
+fn c04_port_absent_in_last_frame_v3_0_rollback() {
+	c04_port_absent_in_last_frame_v3_0_case(-100, -100);
+	kani::cover!(true, "reached");
 }
